@@ -20,7 +20,8 @@ from . import gen_index, gen_misc, gen_own, gen_persist, ops_aux, auxm
 from . import refcodec as R
 from . import values as V
 from .core import Diverged, Streams, Violation, WatchdogTimeout
-from .ops import OPS, capture, execute, labels_exist
+from .ops import OPS, capture, labels_exist
+from .ops import execute_strict as execute
 from .persist import self_contained
 from .profiles import PERSIST_BASE, PersistProfile, Profile, profile, swarm_weights
 from .sim import RunResult
